@@ -32,7 +32,8 @@ impl From<SecError> for Error {
 #[verifier::external_body]
 pub fn fmt_stub() -> (r: String) { unimplemented!() }
 #[verifier::external_body]
-pub fn uid_decode(base64: &str) -> (r: std::result::Result<Uid, SecError>) { unimplemented!() }
+pub fn uid_decode(base64: &str) -> (r: std::result::Result<Uid, SecError>) ensures r is Ok ==> r->Ok_0 == spec_uid(base64@) { unimplemented!() }
+pub uninterp spec fn spec_uid(base64: Seq<char>) -> Uid;
 #[verifier::external_body]
 pub fn base64_decode(data: &[u8]) -> (r: std::result::Result<Vec<u8>, SecError>) ensures r is Ok ==> r->Ok_0@ == spec_b64(data@) { unimplemented!() }
 pub mod trusted_b64 {
@@ -99,6 +100,12 @@ pub mod system_entities {
 //@ extract src/database/system_entities.rs :: const RIGHT_MUTATE_SELF_SHORT
 //@ end
 //@ extract src/database/system_entities.rs :: const RIGHT_MUTATE_ALL_SHORT
+//@ end
+//@ extract src/database/system_entities.rs :: const ROOM_ENT
+//@ end
+//@ extract src/database/system_entities.rs :: const ROOM_ADMIN_FIELD
+//@ end
+//@ extract src/database/system_entities.rs :: const ROOM_AUTHORISATION_FIELD
 //@ end
 }
 use system_entities::*;
@@ -395,5 +402,59 @@ pub proof fn L_live_and_import_decode_alike(a: EntityRight, b: EntityRight, d: i
     ensures er_valid_from(a) == er_valid_from(b), er_entity(a)@ == er_entity(b)@, er_self(a) == er_self(b), er_all(a) == er_all(b),
 {
 }
+// ================================================================= the room-level loop of the reload path (load_json)
+//@ include common/keys.rs
+//@ extract src/database/authorisation_service.rs :: struct RoomAuthorisations
+//@ end
+//@ use-contract u2_verdicts.rs :: RoomAuthorisations::add_room only add_room_view
+/// each group of the room is stored under its own id
+pub closed spec fn groups_keyed(r: Room) -> bool { forall|k: Uid| #[trigger] r.authorisations@.contains_key(k) ==> r.authorisations@[k].id == k }
+/// representation invariant of the room table
+pub closed spec fn table_wf(t: Map<Uid, Room>) -> bool { forall|k: Uid| #[trigger] t.contains_key(k) ==> room_wf(t[k]) && groups_keyed(t[k]) && t[k].id == k }
+pub closed spec fn all_auth_shape(s: Seq<serde_json::Value>) -> bool { forall|i: int| 0 <= i < s.len() ==> auth_shape(#[trigger] s[i]) }
+pub closed spec fn room_shape(v: serde_json::Value) -> bool {
+    v.s_obj() is Some && ({
+        let m = v.s_obj()->Some_0;
+        has_str(m, ID_FIELD@) && has_i64(m, MODIFICATION_DATE_FIELD@)
+        && m.s_get(ROOM_AUTHORISATION_FIELD@) is Some && m.s_get(ROOM_AUTHORISATION_FIELD@)->Some_0.s_arr() is Some && all_auth_shape(m.s_get(ROOM_AUTHORISATION_FIELD@)->Some_0.s_arr()->Some_0)
+        && m.s_get(ROOM_ADMIN_FIELD@) is Some && m.s_get(ROOM_ADMIN_FIELD@)->Some_0.s_arr() is Some && all_user_shape(m.s_get(ROOM_ADMIN_FIELD@)->Some_0.s_arr()->Some_0)
+    })
+}
+pub closed spec fn all_room_shape(s: Seq<serde_json::Value>) -> bool { forall|i: int| 0 <= i < s.len() ==> room_shape(#[trigger] s[i]) }
+/// the JSON text LOAD_QUERY returns: an object whose sys.Room member is an array of rooms of the shape above
+pub closed spec fn load_shape(text: Seq<char>) -> bool {
+    let v = serde_json::spec_json_parse(text);
+    v.s_obj() is Some && v.s_obj()->Some_0.s_get(ROOM_ENT@) is Some && v.s_obj()->Some_0.s_get(ROOM_ENT@)->Some_0.s_arr() is Some
+        && all_room_shape(v.s_obj()->Some_0.s_get(ROOM_ENT@)->Some_0.s_arr()->Some_0)
+}
+pub closed spec fn stored_rooms(text: Seq<char>) -> Seq<serde_json::Value> { serde_json::spec_json_parse(text).s_obj()->Some_0.s_get(ROOM_ENT@)->Some_0.s_arr()->Some_0 }
+pub closed spec fn stored_room_id(v: serde_json::Value) -> Uid { spec_uid(v.s_obj()->Some_0.s_get(ID_FIELD@)->Some_0.s_str()->Some_0) }
+
+//@ extract src/database/authorisation_service.rs :: impl RoomAuthorisations / fn load_json
+//@ result r
+//@ attr #[verifier::loop_isolation(false)]
+//@ loop "for room_value in rooms" iter itr
+            invariant
+                table_wf(self.rooms@),
+                forall|j: int| 0 <= j < itr.index@ ==> self.rooms@.contains_key(stored_room_id(#[trigger] rooms@[j])),
+//@ loop "for auth_value in auth_array" iter ita
+                invariant forall|k: Uid| #[trigger] authorisations@.contains_key(k) ==> auth_wf(authorisations@[k]) && authorisations@[k].id == k,
+//@ insert before-stmt "let mut room = Room {"
+            let ghost auths = authorisations@;
+//@ loop "for value in admin_array" iter itu
+                invariant room.id == id, room.authorisations@ == auths, users_wf(room.admins@),
+//@ insert before-stmt "room.add_admin_user(user)?;"
+                let ghost room_before = room; let ghost user_copy = user;
+//@ insert after-stmt "room.add_admin_user(user)?;"
+                proof { lemma_users_append_wf(room_before.admins@, room.admins@, user_copy); }
+//@ spec
+        requires load_shape(result@), table_wf(old(self).rooms@),
+        ensures
+            // [reload_keeps_the_table_well_formed]{C10} every room installed by the reload satisfies the representation invariant the decision functions are specified on (date-ordered histories, normalised rights, each room and group under its own id)
+            r is Ok ==> table_wf(final(self).rooms@),
+            // [every_stored_room_is_reloaded]{C10} a successful reload installs every room of the stored definition
+            r is Ok ==> forall|j: int| 0 <= j < stored_rooms(result@).len() ==> final(self).rooms@.contains_key(stored_room_id(#[trigger] stored_rooms(result@)[j])),
+//@ end
+
 } // verus!
 fn main() {}
